@@ -28,11 +28,30 @@ def tolerance_primitives(ctx: Ctx) -> None:
     f = ctx.func(GEOM, "Rectangle.set_epsilon")
     c = canon_function(f, m, None, expand=True)
     d, a = ("p", 0), ("p", 1)
-    sets = {st[1]: st[2] for st in c if st[0] == "set" and len(st) == 3}
-    want_d = d
-    want_a = mk_ite(mk_not(mk_lt(a, k_num(0))), a, ("c", ("a", ("g", "math"), "sqrt"), (d,), ()))
-    ctx.site(f.where, "set_epsilon: distance tolerance stored unchanged; area tolerance defaults to sqrt(distance tolerance)")
-    if sets.get(("a", RECT, "_distance_epsilon")) != want_d or sets.get(("a", RECT, "_area_epsilon")) != want_a or len(c) != 2:
+    # on every path: the distance tolerance is stored as given; the area tolerance is the given one when it is >= 0 and
+    # sqrt(distance tolerance) otherwise (a conditional value, a conditional statement or an early return: all the same paths)
+    from framelint.peval import traces
+    root = ("c", ("a", ("g", "math"), "sqrt"), (d,), ())
+    ok = True
+    n_paths = 0
+    for lits, effs, out in traces(c, keep_sets=True, split_values=True):
+        n_paths += 1
+        stores = {}
+        for e in effs:
+            if e[0] == "set" and len(e) == 3 and e[1][0] == "a" and e[1][1] == RECT:
+                stores[e[1][2]] = e[2]
+            elif e[0] != "set":
+                ok = False
+        area = stores.get("_area_epsilon")
+        if isinstance(area, tuple) and area[:1] == ("ite",):
+            cond, a1, a2 = area[1], area[2], area[3]
+            given = (a1 == a and a2 == root and cond == mk_not(mk_lt(a, k_num(0)))) or (a1 == root and a2 == a and cond == mk_lt(a, k_num(0)))
+        else:
+            given = (area == a and mk_not(mk_lt(a, k_num(0))) in lits) or (area == root and mk_lt(a, k_num(0)) in lits)
+        if stores.get("_distance_epsilon") != d or not given or set(stores) != {"_distance_epsilon", "_area_epsilon"}:
+            ok = False
+    ctx.site(f.where, "set_epsilon: distance tolerance stored unchanged; area tolerance defaults to sqrt(distance tolerance)", paths=n_paths)
+    if not ok or not n_paths:
         ctx.report(f.where, "set-epsilon " + "; ".join(show(x) for x in c)[:200],
                    "Rectangle.set_epsilon does not store (distance tolerance, area tolerance or sqrt(distance tolerance) when it is not given): with a "
                    "smaller default area tolerance one-ulp slivers between abutting rectangles count as overlaps and valid dies / allocations are rejected",
